@@ -35,6 +35,7 @@ def analyse(emd, x, kw, nproc, tdir, seed):
     """run mask_sift with tracing and derive the records"""
     S = emd.sift
     recs = []
+    amps0 = np.array(kw['mask_amp'], dtype=float).copy() if not np.isscalar(kw['mask_amp']) else kw['mask_amp']   # as supplied
     X2 = np.asarray(x, float)[:, None]
     N = len(x)
     with InputTrace(emd, tdir) as T:
@@ -69,7 +70,7 @@ def analyse(emd, x, kw, nproc, tdir, seed):
     run['same_across_procs'] = int(not isinstance(o2, str) and np.array_equal(o2[0], imf) and np.array_equal(o2[1], out[1]))
     recs.append(run)
     arrays = [np.array(e['x']).reshape(-1, 1) for e in ev if len(e['x']) == N]
-    amps = kw['mask_amp']
+    amps = amps0
     n = kw['nphases']
     t = np.arange(N)
     used = set()
@@ -134,6 +135,8 @@ def configs(rng):
         kw['mask_amp'] = float(rng.choice([.5, 1, 2]))
     else:
         kw['mask_amp'] = [float(v) for v in rng.choice([.5, 1, 1.5, 2], size=kw['max_imfs'])]
+        if rng.rand() < .5:
+            kw['mask_amp'] = np.array(kw['mask_amp'])      # a float array owned by the caller, re-used by the next call
     if rng.rand() < .4:
         kw['imf_opts'] = {'stop_method': 'fixed', 'max_iters': 3, 'env_step_size': .5}
     return x, kw
